@@ -260,6 +260,7 @@ func checkC14(r *Run) propMeta {
 	checkDecoderWrapsSource(r, p)
 	checkCountAccessors(r, p)
 	checkProjectionCountsFiltered(r, p)
+	checkFlagPairedWithPush(r, "C14-R11-extension-flag-paired", r.MustPkg("container"))
 	r.Floor("C14-R8-decoder-wraps-source", 1)
 	r.Floor("C14-R9-count-accessors", 3)
 	r.Floor("C14-R4-stored-set-readonly", 8)
